@@ -244,13 +244,23 @@ def judge(fmt, spec, asg, tokens, exp):
         if obs == exp:
             continue
         err_of = dict(errs)
+        fams = set()
         for view in G.VIEWS:
             if obs[view] == exp[view]:
                 continue
             if view in err_of:
                 sig = "crash:" + report.exc_site(err_of[view])
             else:
-                sig = "wrong:%s:%s" % (view, _diff_kind(exp[view], obs[view]))
+                kind = _diff_kind(exp[view], obs[view])
+                # one failure, one signature: the same kind of difference showing through several views of the same
+                # family (options / arguments) is reported once, under the first view that shows it
+                fam = ("opt" if "option" in view else "arg", kind, lenient)
+                if fam in fams:
+                    if not lenient:
+                        strict_bad.add(view)
+                    continue
+                fams.add(fam)
+                sig = "wrong:%s:%s" % (view, kind)
                 if lenient and view not in strict_bad:
                     sig += ":lenient-only"
             if not lenient:
